@@ -42,7 +42,6 @@ func (engine) Decode(raw json.RawMessage) (any, error) {
 // handlers only on lambda nodes (a handler on a pass-through / sub graph is a typing
 // question, property C07), mapping targets among the two fields of WS.
 func normalize(c *Case) {
-	hasFields := map[string]bool{}
 	for i := range c.Calls {
 		k := &c.Calls[i]
 		if k.Kind != "lambda" {
@@ -68,19 +67,6 @@ func normalize(c *Case) {
 			if k.In == "dep" {
 				k.Fields = nil
 			}
-			// mapping the whole input of a node after some of its fields is left to
-			// property C15 (checkAndAddMappedPath is being repaired there): such an input
-			// is turned into a pure dependency
-			if k.In != "dep" {
-				if len(k.Fields) == 0 && hasFields[k.To] {
-					k.In = "dep"
-				} else if len(k.Fields) > 0 {
-					hasFields[k.To] = true
-				}
-			}
-		}
-		if k.Op == "addnode" && c.FE == "workflow" {
-			delete(hasFields, k.Key)
 		}
 	}
 }
@@ -300,6 +286,10 @@ func (engine) Run(ci any) lib.Result {
 	// (4) earlier runnables unaffected
 	if !first.intact {
 		fail("runner-affected", first.affected)
+	}
+	// (6) soundness of acceptance: nothing ill-formed (spec.go, independent of the model) got through
+	if sig, what := acceptedIllFormed(c, first.obs); sig != "" {
+		fail(sig, what)
 	}
 	// (5) determinism: same outcome on every attempt
 	classVaries := false
